@@ -423,6 +423,8 @@ Definition span_inv_b (st : state) : bool :=
   | Some sps =>
     forallb (span_ok_b sg qs) sps &&
     (match sps with (i, c) :: _ => (i =? 0) && (c =? info_slices sg) | [] => false end) &&
+    (negb (kind_is_huge sg) ||                       (* a huge segment: the info span and one page *)
+     match sps with [_; (i, _)] => i =? info_slices sg | _ => false end) &&
     (0 <? bsz (get es 0)) &&
     (used sg + 1 =? count_used es sps) &&
     (N.of_nat (length es) =? n + 1) && (n <=? MI_SLICES_PER_SEGMENT) &&
